@@ -58,9 +58,17 @@ LastLock(sq, r) ==
            rest == LastLock(SubSeq(sq, 1, Len(sq) - 1), r)
        IN IF x.t = "precommit" /\ x.v # Nil /\ x.r < r /\ x.r > rest.r THEN [r |-> x.r, v |-> x.v] ELSE rest
 
-SignViolations(n, prior, x, line) ==
-  LET polk == SeqToSet(x.polkas)
-      lock == LastLock(prior, x.r)
+\* the prevote quorums the node holds, computed from the OBSERVED vote sets with the validators' real powers (not taken
+\* from the code's own maj23 bookkeeping, which is part of what is being judged): [r, v] such that the prevotes for v in
+\* round r come from validators holding more than two thirds of the power.  Judged on the state before and after the
+\* step in which the signature was made (a step that commits leaves the vote sets of the next height behind)
+ObsPolkas(nd) ==
+  UNION {{[r |-> r, v |-> w] :
+             w \in {u \in {x[1] : x \in nd.pv[r].by} :
+                       StrictQuorum(SumPower({y[2] : y \in {z \in nd.pv[r].by : z[1] = u}} \cap Vals))}} : r \in Rounds}
+
+SignViolations(n, prior, x, line, polk) ==
+  LET lock == LastLock(prior, x.r)
   IN   FailIf(\E i \in DOMAIN prior : prior[i].t = x.t /\ prior[i].r = x.r /\ (prior[i].v # x.v \/ prior[i].pol # x.pol),
               [l |-> line, inv |-> "NoEquivocation", class |-> x.t])
   \cup FailIf(x.t = "precommit" /\ x.v # Nil /\ ~(\E h \in SeqToSet(x.held) : SameBlock(h, x.v)),
@@ -73,10 +81,10 @@ SignViolations(n, prior, x, line) ==
   \cup FailIf(x.t = "prevote" /\ x.v # Nil /\ ~(\E h \in SeqToSet(x.held) : SameBlock(h, x.v)),
               [l |-> line, inv |-> "PrevoteHeld", class |-> "prevoted a block it does not hold"])
 
-RECURSIVE SignsViol(_, _, _, _)
-SignsViol(n, prior, new, line) ==
+RECURSIVE SignsViol(_, _, _, _, _)
+SignsViol(n, prior, new, line, polk) ==
   IF new = << >> THEN {}
-  ELSE SignViolations(n, prior, Head(new), line) \cup SignsViol(n, Append(prior, Head(new)), Tail(new), line)
+  ELSE SignViolations(n, prior, Head(new), line, polk) \cup SignsViol(n, Append(prior, Head(new)), Tail(new), line, polk)
 
 \* ---------------------------------------------------------------- steps
 StepReset(e) ==
@@ -112,7 +120,7 @@ StepNode(e) ==
                                               fields |-> SetToSeq({f \in DOMAIN post : post[f] # ClearOut(s2)[f]})])
           \cup FailIf(e.post.panic = "none" /\ OutSeq(e.out) # (IF e.nosched THEN SelectSeq(s2.out, LAMBDA x : x.t # "sched") ELSE s2.out), [l |-> l, what |-> "outputs differ from spec (" \o e.ev \o ")", fields |-> <<"out">>])
      /\ viol' = viol
-          \cup SignsViol(n, sgn[n], rel, l)
+          \cup SignsViol(n, sgn[n], rel, l, ObsPolkas(st[n]) \cup ObsPolkas(post))
           \cup FailIf(e.post.panic # "none", [l |-> l, inv |-> "NoPanic", class |-> e.post.panic])
           \* C03: after GST no node may run more than the bound ahead of where it was
           \cup FailIf(gst.on /\ post.height = 1 /\ post.round > gst.round + e.bound,
@@ -186,7 +194,7 @@ StepRestart(e) ==
           \cup FailIf(e.post.panic = "none" /\ e.inq # rp.q, [l |-> l, what |-> "own messages queued after restart differ from the replay of the logged inputs", fields |-> <<"inq">>])
      \* the signatures the replay asks for are signatures of the node like any other (C02; C04 is about the signer's side)
      /\ viol' = viol
-          \cup SignsViol(n, sgn[n], rel, l)
+          \cup SignsViol(n, sgn[n], rel, l, ObsPolkas(st[n]) \cup ObsPolkas(post))
           \cup FailIf(e.post.panic # "none", [l |-> l, inv |-> "NoPanic", class |-> e.post.panic])
      /\ UNCHANGED <<dec, gst, wlog>>
 
